@@ -70,6 +70,11 @@ def run(check: Check) -> None:
         activation_semantics(check, cls, ("conjunction", "disjunction", "implication"))
     c16.tokenisers(check, rule="C1-tok")
     load_then_evaluate(check)
+    wiring.p7_aggregated_membership(check)  # an output without activated terms (no rule fired) is still a fuzzy set: the fold has a seed
+    from . import loaders
+
+    loaders.loader(check, "Consequent.load")  # a consequent that fails to load leaves nothing loaded behind (ready, then `expected a term`)
+    c16.load_atomicity(check, only="Consequent.load")
 
 
 def runtime_sites(check: Check) -> None:
